@@ -113,4 +113,23 @@ def rawWith (wrap : World → Path → Option (Option StaticView)) (args : List 
       s!"out={digest out} consumed={used} fs={snapshotHash w'} leak=0 out=0"
   | _ => "bad-op"
 
+/-- `c05big <announced>`: with writing enabled, CREATE /up.bin, then a WRITE_FILE announcing `announced`
+    bytes. The model's answer does not depend on the payload once the announced length exceeds what the
+    answer can report, so the payload is not materialised. -/
+def c05bigOp (args : List String) : String :=
+  match args with
+  | [a] =>
+    let announced := parseNat a
+    let cfg : Cfg := { allowWrite := true, wrap := fun _ _ => none }
+    let w0 := parseTree "2f:d:1000"
+    let (w1, st1, _) := step cfg w0 ({} : State) (.createFile (strBytes "/up.bin"))
+    let (w2, st2, out) := step cfg w1 st1 (.writeFile announced [])
+    if announced ≤ maxAnnounce then "model-needs-payload" else
+    let (_, _, out3) := step cfg w2 st2 (.statFile [47])
+    let size := match w2.stat [strBytes "up.bin"] with
+      | some (_, .file i) => ((w2.inode? i).map (fun (f : Inode) => f.content.size)).getD 0
+      | _ => 0
+    s!"resp={toHex out.bytes} insync={if out.close || out3.close then 0 else 1} size={size}"
+  | _ => "bad-op"
+
 end Driver
